@@ -65,6 +65,33 @@ pub fn check_unary(a: u16) -> R {
             return fail("effects:iter-laws", format!("iter() of {a:#05x} after {k} items: the remaining items are wrong"));
         }
     }
+    // a finished iterator stays finished, however it was finished and however often it is polled
+    {
+        let mut it = e.iter();
+        while it.next().is_some() {}
+        for _ in 0..600 {
+            if it.next().is_some() {
+                return fail("effects:iter-laws", format!("iter() of {a:#05x} yields a member again after it returned None"));
+            }
+        }
+        for j in [want.len(), want.len() + 1, 12, 40] {
+            let mut it = e.iter();
+            if it.nth(j).is_some() || it.next().is_some() || it.next().is_some() {
+                return fail("effects:iter-laws", format!("iter() of {a:#05x}: nth({j}) beyond the end, or the calls after it, yield a member"));
+            }
+            let mut sk = e.iter().skip(j);
+            if sk.next().is_some() || sk.next().is_some() {
+                return fail("effects:iter-laws", format!("iter() of {a:#05x}: skip({j}) beyond the end yields a member"));
+            }
+        }
+        if !want.is_empty() {
+            let mut it = e.iter();
+            let got = it.nth(want.len() - 1).map(fx_of);
+            if got != want.last().copied() || it.next().is_some() {
+                return fail("effects:iter-laws", format!("iter() of {a:#05x}: nth(len-1) is not the last member followed by None"));
+            }
+        }
+    }
     // debug form names exactly the members
     let dbg = format!("{e:?}");
     let wnames: Vec<&str> = (0..12).filter(|i| a & (1 << i) != 0).map(|i| NAMES[i]).collect();
